@@ -35,7 +35,7 @@ PART = {}
 LINES = ["greet bob", "greet", "num 5", "num abc", "num 1 2", "help", "help greet", "greet --help", "help num abc", "--version", "greet --zz", "nope",
          "greet bob --ansi", "help greet --ansi", "loose 1 2 3", "help loose", "-q greet bob", "num 7 -vvv"]
 BOUNDS = {"quick": "3 runs on one application, each line from an 18-line menu; 4 table style kinds x 5 customisations x creation orders; double rendering of tables, help pages and error traces",
-          "thorough": "4 runs (first two pinned per condition)"}
+          "thorough": "additionally 4 runs whose first line is an invalid value / failing help / unknown option / --ansi help"}
 OUTSIDE = ["sequences of 5-6 runs", "re-using one RawArgs OBJECT for two runs (each run gets a fresh StringArgs/ArgvArgs of its line): HelpResolver.resolve removes the leading 'help' token from the raw args it is given - observed, but the statement quantifies over command lines",
            "process-wide state outside clikit (pastel, crashtest)"]
 STUBS = ["buffered streams; a handler that records its arguments and writes them at every verbosity"]
@@ -229,10 +229,13 @@ def conditions(tier):
     quick = tier == "quick"
     t = 120 if quick else 1500
     conds = []
-    for k1 in range(len(LINES)):
-        for k2 in ([None] if quick else range(len(LINES))):
-            conds.append({"name": "sequence[%r%s]" % (LINES[k1], "" if k2 is None else "," + repr(LINES[k2])), "fn": sequence, "timeout": t, "part": {"k1": k1, "k2": k2, "n": 3 if quick else 4},
-                          "bounds": "runs: %r, then %s, each from %r, on one application vs fresh applications" % (LINES[k1], "2 more lines" if quick else "%r and 2 more lines" % LINES[k2], LINES)})
+    plan = [(k1, None, 3) for k1 in range(len(LINES))]
+    if not quick:
+        plan += [(k1, k2, 4) for k1 in (3, 8, 10, 13) for k2 in range(len(LINES))]       # 4 runs after an invalid line / failing help / unknown option / --ansi help
+    for k1, k2, nruns in plan:
+        if True:
+            conds.append({"name": "sequence[%r%s]" % (LINES[k1], "" if k2 is None else "," + repr(LINES[k2])), "fn": sequence, "timeout": t, "part": {"k1": k1, "k2": k2, "n": nruns},
+                          "bounds": "runs: %r, then %s, each from %r, on one application vs fresh applications" % (LINES[k1], "2 more lines" if k2 is None else "%r and 2 more lines" % LINES[k2], LINES)})
     conds.append({"name": "sequence_twin", "fn": sequence_twin, "timeout": t, "expect": "refute", "part": {"k1": 8, "n": 2}, "bounds": "reachability twin"})
     conds.append({"name": "styles", "fn": styles, "timeout": t, "bounds": "first style kind x second kind x 5 in-place customisations x third kind; border style factories"})
     conds.append({"name": "twice", "fn": twice, "timeout": t, "bounds": "tables (4 styles, wrapped cells), help pages (application and 4 commands), error traces (3 depths x 4 verbosities) rendered twice"})
